@@ -77,7 +77,12 @@ func (h *JSONHybridHandler) Handle(ctx context.Context, r slog.Record) (err erro
 
 	bufTextHdlr.reset()
 
-	r.AddAttrs(h.textAttrs...)
+	if len(h.textAttrs) > 0 {
+		// Clone the record before modifying it, since r may share its state
+		// with the copies held by the caller or by other handlers.
+		r = r.Clone()
+		r.AddAttrs(h.textAttrs...)
+	}
 
 	err = bufTextHdlr.handler.Handle(ctx, r)
 	if err != nil {
